@@ -808,7 +808,11 @@ def gen_fn(repo, d, body, report):
             hdr = sub["args"][1]
             cls = find_closures(src, f["body_open"] + 1, f["body_close"])
             o = kv(sub["args"][2:])
-            (p0, p1, b0, b1) = select_closure(src, cls, k, o.get("of"), f"{d['file']}::{d['name']}")
+            __sel = select_closure(src, cls, k, o.get("of"), f"{d['file']}::{d['name']}")
+            if __sel is None:
+                stats["R7-skipped"] = stats.get("R7-skipped", 0) + 1
+                continue
+            (p0, p1, b0, b1) = __sel
             bind = ""
             if o.get("bind"):
                 # R7b: tuple pattern parameter -> typed variable + destructuring let (same semantics)
@@ -933,7 +937,11 @@ def select_closure(src, cls, k, of, what):
                 sel.append(c)
         cls = sel
     if k >= len(cls):
-        raise LostAnchor(f"{what}: closure ordinal {k}{' of ' + of if of else ''} not found")
+        if of:
+            # the call that took this closure is gone: there is nothing left to give a header to (if the closure lives on under
+            # another callee the generated text fails to type-check - exit 2 - it cannot verify by accident)
+            return None
+        raise LostAnchor(f"{what}: closure ordinal {k} not found")
     return cls[k]
 
 
@@ -1137,7 +1145,11 @@ def gen_fragment(repo, d, body, report):
             hdr = sub["args"][1]
             cls = find_closures(src, a0, b1 + 1)
             o = kv(sub["args"][2:])
-            (p0, p1, c0, c1) = select_closure(src, cls, k, o.get("of"), f"fragment {d['name']}")
+            __sel = select_closure(src, cls, k, o.get("of"), f"fragment {d['name']}")
+            if __sel is None:
+                stats["R7-skipped"] = stats.get("R7-skipped", 0) + 1
+                continue
+            (p0, p1, c0, c1) = __sel
             bind = f"let {o['bind']} = __p; " if o.get("bind") else ""
             edits.add(toks[p0].start, toks[p1].end, hdr + "\n" + text + "\n{ " + bind, "R7", "closure header")
             edits.add(toks[c1].end, toks[c1].end, " }", "R7", "")
